@@ -18,18 +18,31 @@
 (* the mask M_i computed from the sign choice.                             *)
 (* TLC checks Impl = Property for every matrix, leak vector, f and choice, *)
 (* and exports every terminal state as a scenario.                         *)
+(* CALL HISTORIES: Recall starts a further call on the same object; it     *)
+(* leads back to an initial state, i.e. the object carries nothing from    *)
+(* one call to the next but its configuration, and LeakImmutable says the  *)
+(* configuration (leak, f) is never changed by a call.  So the expected    *)
+(* coordinates of a call are those of its (J, leak, f, choice) alone,      *)
+(* whatever was aggregated before - in particular whatever the dtype of    *)
+(* the earlier matrices was.  DtypeHistories lists the dtype sequences the *)
+(* replay takes ONE object through (the leak being given in float64), and  *)
+(* AllowUnits the derived allowance of a coordinate per dtype.  Leak mode  *)
+(* "nd" adds leaks that are not dyadic (1/3, 2/7, 7/10): exact rationals   *)
+(* here, not representable in any binary float format.                     *)
 (***************************************************************************)
 EXTENDS Integers, Sequences, FiniteSets, TLC, Json, IOUtils, Rat, IntMat
 
 CONSTANTS Shapes,          \* family: set of codes 100 m + 10 n + e: all m x n matrices with entries -e..e
-          LeakMode,        \* "full": leak in {0,1/4,1/2,1}^m   "ends": {0,1/4,1}^m
+          LeakMode,        \* "full": leak in {0,1/4,1/2,1}^m   "ends": {0,1/4,1}^m   "nd": {0,1/3,2/7,7/10,1}^m
           FKinds,          \* subset of {"id", "sq", "half"}: f(P) = P | P^2 | (1+P)/2  (all increasing)
           SampleMod, SamplePick
 
 MatSet(mm, nn, ee) == [1..mm -> [1..nn -> (0 - ee)..ee]]
 Family     == UNION {MatSet(sh \div 100, (sh \div 10) % 10, sh % 10) : sh \in Shapes}
 LeakVals   == IF LeakMode = "full" THEN {<<0, 1>>, <<1, 4>>, <<1, 2>>, <<1, 1>>}
+              ELSE IF LeakMode = "nd" THEN {<<0, 1>>, <<1, 3>>, <<2, 7>>, <<7, 10>>, <<1, 1>>}
               ELSE {<<0, 1>>, <<1, 4>>, <<1, 1>>}
+Dyadic(q)  == q[2] \in {1, 2, 4, 8, 16}
 Choices    == {"pos", "neg", "none"}
 
 -----------------------------------------------------------------------------
@@ -102,7 +115,12 @@ Finish == /\ phase = "rows" /\ i = m + 1
           /\ phase' = "done"
           /\ UNCHANGED <<J, leak, fkind, choice, i, vec>>
 
-Next == Draw \/ Row \/ Finish
+\* a further call on the SAME object with the same argument: nothing but the configuration survives a call
+Recall == /\ phase = "done"
+          /\ phase' = "draw" /\ choice' = <<>> /\ i' = 1 /\ vec' = RZeros(NC)
+          /\ UNCHANGED <<J, leak, fkind>>
+
+Next == Draw \/ Row \/ Finish \/ Recall
 Spec == Init /\ [][Next]_vars
 FairSpec == Spec /\ WF_vars(Next)
 
@@ -138,6 +156,19 @@ PureColumn == (Finished /\ fkind = "id") =>
 
 Terminates == <>Finished
 
+\* a call never changes the configuration of the object (action property)
+LeakImmutable == [][leak' = leak /\ fkind' = fkind]_vars
+\* ... and after Recall the object is where a fresh one starts: the next call is Init's
+RecallIsFresh == (phase = "draw") => (choice = <<>> /\ i = 1 /\ vec = RZeros(NC))
+
+\* dtype sequences of the matrices one object is called on in the replay (leak given in float64)
+DtypeHistories == << <<"float32", "float64">>, <<"float64", "float32">>, <<"bfloat16", "float32", "float64">>,
+                     <<"float16", "float64">> >>
+\* Allowance of a coordinate in units of eps(dtype) * Sum_r |J_rc|: per row the rounding of the leak to the
+\* dtype it is used in, of 1 - leak, of their sum and of the product with J_rc (4), plus one rounding per
+\* accumulation (m) - a first-order bound, doubled.
+AllowUnits == 2 * (4 + m) 
+
 -----------------------------------------------------------------------------
 (* Scenario export                                                         *)
 
@@ -147,6 +178,8 @@ ScnHash == LET F[x \in 0..m] == IF x = 0 THEN 0
            IN  F[m] + (IF fkind = "id" THEN 0 ELSE IF fkind = "sq" THEN 1 ELSE 2)
                     + SumSeq([c \in 1..NC |-> IF choice[c] = "pos" THEN c ELSE 0])
 Scenario == [J |-> J, leak |-> leak, f |-> fkind, choice |-> choice, out |-> vec,
+             dyadic |-> \A r \in 1..m : Dyadic(leak[r]), hist |-> DtypeHistories, units |-> AllowUnits,
+             absum |-> [c \in 1..NC |-> ColAbsSum(J, c)],
              fp |-> [c \in 1..NC |-> IF ZeroCol(J, c) THEN <<0, 1>> ELSE FP(J, fkind, c)],
              cand |-> [c \in 1..NC |-> CoordCandidates(J, leak, fkind, c)]]
 Export   == (Finished /\ (ScnHash % SampleMod) = SamplePick) => PrintT(<<"SCN", ToJson(Scenario)>>)
